@@ -176,7 +176,7 @@ func c01Run(c *engine.Ctx) {
 	if !quick {
 		sz = map[string]int{"F1": 6, "F2": 6, "F3": 6, "F4": 5, "F5": 5, "full": 4}
 	}
-	runGrammarVsModel(c, GrammarF5(), sz["F5"], []any{nil, univ.J(`[1,[2]]`), univ.J(`[[1,2],3]`), univ.J(`{"a":1,"b":[2]}`), univ.J(`[[1],2,[3]]`)}, nil)
+	runGrammarVsModel(c, GrammarF5(), sz["F5"], []any{nil, univ.J(`[1,[2]]`), univ.J(`[[1,2],3]`), univ.J(`{"a":1,"b":[2]}`), univ.J(`[[1],2,[3]]`), univ.J(`[{"b":[1]},[2],{"b":[3]}]`)}, nil)
 	runGrammarVsModel(c, GrammarF1(), sz["F1"], inputs, nil)
 	runGrammarVsModel(c, GrammarF2(), sz["F2"], inputs, nil)
 	runGrammarVsModel(c, GrammarF3(), sz["F3"], inputs[:8], nil)
